@@ -17,6 +17,9 @@ MODEL_SWITCHES = [
     ("MC_Conc3", "MC_Conc3_bug2.cfg", "Quiescent", "collapsed interior root not marked deleted"),
     ("MC_Conc3", "MC_Conc3_bug3.cfg", "LockOK", "retry edge of the prev-lock loop keeps prev locked"),
     ("MC_Conc3", "MC_Conc3_bug4.cfg", "Quiescent", "F14: surviving empty root keeps links to its deleted sibling"),
+    ("MC_Conc4", "MC_Conc4_bug1.cfg", "LinOK", "split unlocks its borders before it owns the parent lock"),
+    ("MC_Conc4", "MC_Conc4_bug2.cfg", "LinOK", "interior insert without the inserting mark"),
+    ("MC_Conc4", "MC_Conc4_bug3.cfg", "LinOK", "interior delete (shift) without the inserting mark"),
     ("YkEpoch", "MC_Epoch_bug.cfg", "SafeStrong", "F5: two-step enter"),
     ("YkLife", "MC_Life_bug.cfg", "ThreadsAliveWhileRunning", "F4: stop flags not cleared"),
     ("MC_Tree", "MC_Tree_scan5_f2.cfg", "ScanOK", "F2: scan uses l_key with INF"),
